@@ -303,6 +303,38 @@ Definition verdict (c : aview * list ocall) : N :=
 
 Definition verdicts (cs : list (aview * list ocall)) : list N := map verdict cs.
 
+(* diagnostics: [verdict; index of the first offending call; what differs there]
+   for verdict 2: 1 image, 2 ids, 3 view;  for verdict 1: 1 tin, 2 tout, 3 bout, 4 tview, 5 bview, 6 snap,
+   7 lengths differ / tables not exhausted *)
+Definition field_diff (a b : ocall) : N :=
+  if negb (opt_eqb otin_eqb (o_tin a) (o_tin b)) then 1
+  else if negb (otout_eqb (o_tout a) (o_tout b)) then 2
+  else if negb (obout_eqb (o_bout a) (o_bout b)) then 3
+  else if negb (list_eqb N.eqb (o_tview a) (o_tview b)) then 4
+  else if negb (list_eqb N.eqb (o_bview a) (o_bview b)) then 5
+  else if negb (snap_eqb (o_snap a) (o_snap b)) then 6 else 0.
+Fixpoint first_diff (n : N) (m obs : list ocall) : N * N :=
+  match m, obs with
+  | a :: m', b :: obs' => if ocall_eqb a b then first_diff (n + 1) m' obs' else (n, field_diff a b)
+  | [], [] => (n, 7)
+  | _, _ => (n, 7)
+  end.
+Fixpoint ok_fail_at (n : N) (prev : list (nat * rkind)) (obs : list ocall) : N * N :=
+  match obs with
+  | [] => (n, 0)
+  | o :: rest =>
+      if negb (image_ok o) then (n, 1) else if negb (ids_ok prev o) then (n, 2)
+      else if negb (view_ok o) then (n, 3) else ok_fail_at (n + 1) (o_snap o) rest
+  end.
+Definition diag (c : aview * list ocall) : list N :=
+  let v := verdict c in
+  match v with
+  | 0 => [0; 0; 0]
+  | 2 => let (n, k) := ok_fail_at 0 [] (snd c) in [2; n; k]
+  | _ => let (n, k) := first_diff 0 (fst (model_run (fst c) (snd c))) (snd c) in [v; n; k]
+  end.
+Definition diags (cs : list (aview * list ocall)) : list N := flat_map diag cs.
+
 (* ------------------------------------------------------------------ a concrete run (non-vacuity witness) *)
 Definition nv_tables : rtables :=
   mkTables [(7, [mkEff (0, 0) KNever 0%nat; mkEff (3, 5) KOnce 1%nat; mkEff (5, 5) KMany 2%nat])]
